@@ -163,7 +163,7 @@ Definition spec_ok (c : case) (o : out) : bool :=
   | CBEnc v, OBytes b => wf v && str_eqb (ref_encode v) b
   | CEdn _ v, OEdn _ back => edn_eqb v back          (* reads back as an equal value of the same type *)
   | CEdnText _ _, (OEdn _ _ | OEdnErr _ _) => true   (* arbitrary text: nothing prescribed beyond answering *)
-  | CJson v, OJson back => jkeys_distinct v && jval_eqb (coerce v) back
+  | CJson v, OJson back => if jkeys_distinct v then jval_eqb (coerce v) back else true   (* colliding key names: nothing prescribed *)
   | _, _ => false
   end.
 
